@@ -611,12 +611,20 @@ func main() {
 	merge := flag.Bool("merge", false, "merge into an existing overlay file")
 	mapRange := flag.Bool("maprange", false, "also rewrite range-over-map into vs.MapKeys")
 	onlyMap := flag.Bool("only-maprange", false, "rewrite nothing but range-over-map")
+	nativeAtomic := flag.Bool("native-atomic", false, "leave sync/atomic alone (atomics stay invisible steps of the thread that performs them)")
 	tags := flag.String("tags", "", "build tags for loading")
 	pkgname := flag.String("pkgname", "", "rename the package clause of rewritten files (used with -mapto)")
 	mapto := flag.String("mapto", "", "overlay the rewritten files into this (virtual) directory instead of over their sources; all files of the package are emitted")
 	flag.Parse()
 	if *dir == "" {
 		*dir = *repo
+	}
+	if *nativeAtomic {
+		for k := range qualified {
+			if strings.HasPrefix(k, "sync/atomic.") {
+				delete(qualified, k)
+			}
+		}
 	}
 	cfg := &packages.Config{
 		Mode: packages.NeedName | packages.NeedFiles | packages.NeedCompiledGoFiles | packages.NeedSyntax | packages.NeedTypes | packages.NeedTypesInfo | packages.NeedImports | packages.NeedDeps,
